@@ -230,6 +230,18 @@ class SSI_mpe_int_cov(_SSI_mpe):
     loops = {3: _ssi_loop("int", True)}
 
 
+@register
+class SSI_mpe_list_cov(_SSI_mpe):
+    """one order per mode WITH covariance tables: a request that is skipped (no pole within tolerance at its order) contributes nothing to
+    any list - the covariance lists stay paired with the frequency list"""
+    name = "order per mode, covariances"
+    props = ("C11",)
+    variant = "list"
+    with_cov = True
+    canaries = {}
+    loops = {4: _ssi_loop("list", True)}
+
+
 # ---------------------------------------------------------------------------------------------------------------------
 # plscf.pLSCF_mpe: one loop over the requests with the order kind tested inside; order_out starts as np.empty(n_req)
 # ---------------------------------------------------------------------------------------------------------------------
